@@ -179,6 +179,8 @@ def get (cfg : Cfg) (r : Route) (reach : Reach) (c : Cluster) (dm : Bytes) (k : 
       let c' :=
         if cfg.readRepair then
           vs.foldl (fun c v =>
+            -- a previous owner (a primary copy of another member) is not repaired: the balancer merges it
+            if v.2.1 = .prim ∧ v.1 ≠ r.owner then c else
             match v.2.2 with
             | some x => if x.ts = w.2.2.ts then c else c.setCopy v.1 (if v.1 = r.owner then .prim else .bak) dm k (some w.2.2)
             | none => c.setCopy v.1 (if v.1 = r.owner then .prim else .bak) dm k (some w.2.2)) c
